@@ -12,7 +12,7 @@ import PcGen.ApiConst
 namespace Pc.PiApi
 open PcGen.ApiConst
 
-/-- what the entry points throw: `primecount_error` or `calculator::error` -/
+/-- what the entry points throw: `primecount_error` (the calculator's own `calculator::error` is converted by `to_maxint` since repair F7: pi(string) documents primecount_error) -/
 inductive ApiErr where
   | pcError | calcError
 deriving Repr, DecidableEq
